@@ -90,6 +90,10 @@ Definition polling_callback_sentinels : list string := ["ErrAcceptSocket"; "ErrE
 Definition polling_task_sentinels : list string := ["ErrEngineShutdown"].
 (* errno values of accept4 that el.accept / el.accept0 tolerate (sorted); anything else is ErrAcceptSocket *)
 Definition accept_tolerated : list string := ["eagain"; "econnaborted"; "econnreset"; "eintr"].
+(* el.accept0 (main reactor, edge-triggered listener; not part of the loop model): the queue is drained
+   until EAGAIN, so a transient failure must be followed by another accept4, not by a return *)
+Definition accept0_done : list string := ["eagain"].
+Definition accept0_retry : list string := ["econnaborted"; "econnreset"; "eintr"].
 (* where the loop's I/O code mentions an errno: the model's `is_eagain` tests, one per site, in source order *)
 Definition errno_sites : list (string * string) :=
   [("eventloop.read", "eagain"); ("eventloop.write", "eagain"); ("eventloop.readUDP", "eagain");
